@@ -514,6 +514,8 @@ func runHistory(t *rapid.T) {
 	steps := rapid.IntRange(3, 14).Draw(t, "steps")
 	s.scan()
 	nontrivial := false
+	ever := map[string]bool{}
+	var everList []string
 	for i := 0; i < steps; i++ {
 		before := e.Refs(s.nodes)
 		sharedBefore := false
@@ -529,10 +531,17 @@ func runHistory(t *rapid.T) {
 		after := e.Refs(s.nodes)
 		s.hist = append(s.hist, fmt.Sprintf("%s   deleted{%s}", r.desc, fdrv.ShortList(observed)))
 
-		// safety: nothing handed to deletion is referenced by a live name
+		// safety: nothing handed to deletion (in this step or earlier: the harness
+		// never re-introduces a file id) is referenced by a live name
 		obs := map[string]bool{}
 		for _, f := range observed {
 			obs[f] = true
+			if !ever[f] {
+				ever[f] = true
+				everList = append(everList, f)
+			}
+		}
+		for _, f := range everList {
 			if after[f] > 0 {
 				var who []string
 				for _, n := range s.nodes {
@@ -546,7 +555,11 @@ func runHistory(t *rapid.T) {
 						}
 					}
 				}
-				t.Fatalf("SAFETY: step %d handed chunk %s to deletion while %v still reference(s) it\n%s", i, fdrv.Short(f), who, s.history())
+				when := "in this step"
+				if !obs[f] {
+					when = "in an earlier step"
+				}
+				t.Fatalf("SAFETY: after step %d chunk %s, handed to deletion %s, is referenced by %v\n%s", i, fdrv.Short(f), when, who, s.history())
 			}
 		}
 		// completeness: what a data-deleting step unreferenced has been handed to deletion
